@@ -818,6 +818,12 @@ def m_identity(engine, st, fr, callee, args, ops):
     return args[0]
 
 
+def m_to_owned_str(engine, st, fr, callee, args, ops):
+    """<str as ToOwned>::to_owned: the String holds exactly the bytes of the str."""
+    v = args[0]
+    return sym._deref_arg(engine, st, v) if isinstance(v, sym.Ref) else v
+
+
 def m_enumerate(engine, st, fr, callee, args, ops):
     return citer([Adt("tuple", None, [z3.BitVecVal(i, 64), x]) for i, x in enumerate(_items(engine, st, args[0]))])
 
@@ -1059,6 +1065,7 @@ def m_iter_mut_for(engine, st, fr, callee, args, ops):
 ITER = r"(std::slice::Iter(Mut)?<'_, .*>|std::vec::IntoIter<.*>|(std|core)::array::IntoIter<.*>|(std::iter::|core::iter::)?(Enumerate|Rev|Skip|Take|StepBy|Chain|Zip|Copied|Cloned|Map|Filter|TakeWhile|SkipWhile)<.*>|(std::slice::)?Chunks(Exact)?<'_, .*>|(std::slice::)?Windows<'_, .*>)"
 
 MODELS = [
+    (r"^<str as ToOwned>::to_owned$", m_to_owned_str),
     # integers
     (r"^core::num::<impl " + INTS + r">::(wrapping_add|wrapping_sub|wrapping_mul|checked_add|checked_sub|checked_mul|saturating_add|saturating_sub|min|max|"
      r"leading_zeros|trailing_zeros|count_ones|swap_bytes|rotate_left|rotate_right|to_le_bytes|to_be_bytes|to_ne_bytes|from_le_bytes|from_be_bytes|from_ne_bytes|"
